@@ -11,6 +11,7 @@ import Proofs.CoFinal
 import Proofs.CoFinalQueries
 import Proofs.CoDrainWriters
 import Proofs.CoNetBounds
+import Proofs.CoMissedLink
 import Proofs.CoFuelDrain
 /-! C16 — cooperative interleaving of generators. All eleven `*_iter` generators of traph.py are explicit coroutine
     state machines (`Traph/Co.lean`: the two writers, the page and network queries, and the seven other queries under
@@ -200,6 +201,32 @@ theorem C16_phantom_witness :
     (Sys.run (Phantom.before, Phantom.reqs.map CoReq.init) [0, 1, 0, 0, 0]).1.1 = Phantom.after :=
   ⟨Phantom.answer_lists_pz, Phantom.before_not_a_page.1, Phantom.before_not_a_page.2,
    Phantom.after_foreign.1, Phantom.after_foreign.2.2, Phantom.index_states.1, Phantom.index_states.2.2.2⟩
+
+/-- FINDING F16c AS A THEOREM: the page-link query of webentity 1 (all three switches on), advanced one step, then a rule
+    installation to completion, then the query to its end, answers `[]` — although at EVERY moment of the schedule the atomic
+    query lists the link `…p:zzz|p:0| → …p:k|` (as internal before the installation, as inbound after it). The completeness
+    clause of the property is false of the code for items that change class while the query runs. (Same history as
+    findings/F16c.json, replayed on the real code by every run.) -/
+theorem C16_missed_link_witness :
+    (0, CoOut.done (.links [])) ∈
+      (Sys.run (MissedLink.before, MissedLink.reqs.map CoReq.init) [0, 1, 1, 1, 1, 1, 0]).2 ∧
+    MissedLink.before.ask (.pagelinks 1 [MissedLink.P] false true false) = .links [(MissedLink.a, MissedLink.b, 1)] ∧
+    MissedLink.after.ask (.pagelinks 1 [MissedLink.P] true false false) = .links [(MissedLink.a, MissedLink.b, 1)] ∧
+    (∀ k, k ≤ 7 → (Sys.run (MissedLink.before, MissedLink.reqs.map CoReq.init) (MissedLink.sched.take k)).1.1.ask
+        (.pagelinks 1 [MissedLink.P] true true true) = .links [(MissedLink.a, MissedLink.b, 1)]) := by
+  refine ⟨MissedLink.answer_misses_link, MissedLink.before_lists_link.2.1, MissedLink.after_lists_link.2.1, ?_⟩
+  intro k hk
+  have h := MissedLink.every_moment
+  have hk' : k = 0 ∨ k = 1 ∨ k = 2 ∨ k = 3 ∨ k = 4 ∨ k = 5 ∨ k = 6 ∨ k = 7 := by omega
+  rcases hk' with rfl | rfl | rfl | rfl | rfl | rfl | rfl | rfl
+  · exact h.1
+  · exact h.2.1
+  · exact h.2.2.1
+  · exact h.2.2.2.1
+  · exact h.2.2.2.2.1
+  · exact h.2.2.2.2.2.1
+  · exact h.2.2.2.2.2.2.1
+  · exact h.2.2.2.2.2.2.2
 
 section Final
 open Traph State Layout
